@@ -148,7 +148,10 @@ class StubRunner:
         if kind == R_NONE:
             return None
         if kind == R_API:
-            raise elasticsearch.ApiError("boom", api_meta(500), {"error": "x"})
+            # the message of an API error is whatever the response body carried as "error": Elasticsearch sends an object with a "type"
+            # (the client turns that into a string), gateways and proxies send other shapes that arrive as they are
+            message = ["boom", {"code": 502, "message": "bad gateway"}, None][i % 3]
+            raise elasticsearch.ApiError(message, api_meta(500), {"error": message})
         if kind == R_TRANSPORT:
             raise elastic_transport.TlsError("tls", errors=())
         if kind == R_TIMEOUT:
